@@ -48,6 +48,9 @@ var (
 	known  = map[string]int{}
 )
 
+// listedKnown: the findings the committed file lists (a deviation whose name is not listed is a violation)
+var listedKnown = map[string]bool{}
+
 func fail(kind, detail string, extra any) {
 	if len(sum.Failures) >= 6 {
 		return
@@ -79,10 +82,12 @@ func main() {
 	childExit := flag.Int64("childexit", 0, "internal: exit at this storage step")
 	childPost := flag.Bool("childpost", false, "internal: exit after the step")
 	childWl := flag.Int("childwl", 0, "internal: workload number")
+	knownPath := flag.String("known", "/verif/KNOWN_FINDINGS.jsonl", "known findings file")
 	childOpen := flag.Bool("childopen", false, "internal: count (and crash at) the storage steps of Open itself")
 	childBig := flag.Bool("childbig", false, "internal: die inside one large uncommitted transaction")
 	flag.StringVar(&outDir, "out", "/verif/replays", "replay directory")
 	flag.Parse()
+	listedKnown = hx.KnownNames(*knownPath)
 	if *child != "" && *childBig {
 		crashChildBig(*child)
 	}
